@@ -10,7 +10,9 @@ import msggen
 THEOREMS = ["C07.c07_prim", "C07.c07_pump_events_mode_free", "runWalker_acct",
             "MRel.bind", "MRel.ownCatch", "MRel.msgCatch", "decode_mrel", "decodeCommand_mrel", "decodeResponse_mrel", "decodeStream_mrel",
             "runWalker_mrel", "runWalker_nw", "C07.c07_strict_ok", "C07.c07_first_problem", "C07.c07_same_stop",
-            "C07.c07_strict_no_warning", "C07.c07_no_warning"]
+            "C07.c07_strict_no_warning", "C07.c07_no_warning",
+            # "for an out-of-range value the offending event is emitted first, then the warning" - at every position (Props/C08V.lean)
+            "C08.c08_annotated", "C08.c08_value_warning_follows_its_field", "C08.c08_offending_field_is_warned"]
 
 
 def build_inputs(ctx, rnd):
@@ -168,6 +170,7 @@ def run(ctx, replay_case):
     })
 
 
-PROP = {"targets": ["TpmProofs.Props.C07"], "module": "TpmProofs.Props.C07", "theorems": THEOREMS, "run": run,
+PROP = {"targets": ["TpmProofs.Props.C07", "TpmProofs.Props.C08V"], "module": ["TpmProofs.Props.C07", "TpmProofs.Props.C08V"],
+        "checker_modules": ["TpmProofs.Props.C07", "TpmProofs.Props.C08V"], "theorems": THEOREMS, "run": run,
         "assumptions": ["the relation between the modes (runWalker_mrel) is a theorem about the model for every input; the model is tied to the "
                         "implementation by correspondence in both modes, and the relation is also monitored on the implementation"]}
